@@ -78,6 +78,55 @@ Proof.
   rewrite R in S. destruct S as [_ C]. apply (C e eq_refl OE).
 Qed.
 
+(* the LoRaWAN adapter (LorawanRadio: tx, setup_rx, low_power; rx_single / rx_continuous are rx): its operations are sequences of the
+   LoRa-layer operations above and keep the same invariant, on every emulated chip *)
+Theorem C14_adapter_sx126x : forall tc dc lo g (HD : g_dcdc g = dc) (HT : tc = match g_tcxo g with Some _ => true | None => false end) fuel rfuel c m,
+  I126 tc dc lo g HD HT (c_drv c) m ->
+  (forall sf bw cr f pw buffer, match run rfuel c (lw_tx (kind126 g) fuel sf bw cr f pw buffer) [] with
+     | (c', tr, Some _) => I126 tc dc lo g HD HT (c_drv c') (mon_op (xl126 tc dc lo false) m tr) | _ => True end) /\
+  (forall sf bw cr f ms, match run rfuel c (lw_setup_rx (kind126 g) sf bw cr f ms) [] with
+     | (c', tr, Some _) => I126 tc dc lo g HD HT (c_drv c') (mon_op (xl126 tc dc lo false) m tr) | _ => True end) /\
+  (match run rfuel c (lw_low_power (kind126 g)) [] with
+     | (c', tr, Some _) => I126 tc dc lo g HD HT (c_drv c') (mon_op (xl126 tc dc lo false) m tr) | _ => True end).
+Proof.
+  intros tc dc lo g HD HT fuel rfuel c m HI.
+  assert (HF : Inv (xl126 tc dc lo false) (kind126 g) (ko126 tc dc lo g HD HT false) (c_drv c) (time_passes m)) by (apply Inv_time; exact HI).
+  split; [|split].
+  - intros sf bw cr f pw buffer.
+    pose proof (wp_sound (xl126 tc dc lo false) unit rfuel (lw_tx (kind126 g) fuel sf bw cr f pw buffer) _ c [] (time_passes m)
+                  (lw_tx_keeps (xl126 tc dc lo false) (kind126 g) (ko126 tc dc lo g HD HT false) fuel sf bw cr f pw buffer _ _ (eq_refl false) HF)) as S.
+    destruct (run rfuel c (lw_tx (kind126 g) fuel sf bw cr f pw buffer) []) as [[c' tr] [r|]]; exact S.
+  - intros sf bw cr f ms.
+    pose proof (wp_sound (xl126 tc dc lo false) pktp rfuel (lw_setup_rx (kind126 g) sf bw cr f ms) _ c [] (time_passes m)
+                  (lw_setup_rx_keeps _ _ _ sf bw cr f ms _ _ HF)) as S.
+    destruct (run rfuel c (lw_setup_rx (kind126 g) sf bw cr f ms) []) as [[c' tr] [r|]]; exact S.
+  - pose proof (wp_sound (xl126 tc dc lo false) unit rfuel (lw_low_power (kind126 g)) _ c [] (time_passes m) (lw_low_power_keeps _ _ _ _ _ HF)) as S.
+    destruct (run rfuel c (lw_low_power (kind126 g)) []) as [[c' tr] [r|]]; exact S.
+Qed.
+Theorem C14_adapter_sx127x : forall tc dc h quirk (HT : h_tcxo h = tc) fuel rfuel c m,
+  I127 tc dc h quirk HT (c_drv c) m ->
+  (forall sf bw cr f pw buffer, match run rfuel c (lw_tx (kind127 h quirk) fuel sf bw cr f pw buffer) [] with
+     | (c', tr, Some _) => I127 tc dc h quirk HT (c_drv c') (mon_op (xl127 tc dc false) m tr) | _ => True end) /\
+  (forall sf bw cr f ms, match run rfuel c (lw_setup_rx (kind127 h quirk) sf bw cr f ms) [] with
+     | (c', tr, Some _) => I127 tc dc h quirk HT (c_drv c') (mon_op (xl127 tc dc false) m tr) | _ => True end) /\
+  (match run rfuel c (lw_low_power (kind127 h quirk)) [] with
+     | (c', tr, Some _) => I127 tc dc h quirk HT (c_drv c') (mon_op (xl127 tc dc false) m tr) | _ => True end).
+Proof.
+  intros tc dc h quirk HT fuel rfuel c m HI.
+  assert (HF : Inv (xl127 tc dc false) (kind127 h quirk) (ko127 tc dc h quirk HT false) (c_drv c) (time_passes m)) by (apply Inv_time; exact HI).
+  split; [|split].
+  - intros sf bw cr f pw buffer.
+    pose proof (wp_sound (xl127 tc dc false) unit rfuel (lw_tx (kind127 h quirk) fuel sf bw cr f pw buffer) _ c [] (time_passes m)
+                  (lw_tx_keeps (xl127 tc dc false) (kind127 h quirk) (ko127 tc dc h quirk HT false) fuel sf bw cr f pw buffer _ _ (eq_refl false) HF)) as S.
+    destruct (run rfuel c (lw_tx (kind127 h quirk) fuel sf bw cr f pw buffer) []) as [[c' tr] [r|]]; exact S.
+  - intros sf bw cr f ms.
+    pose proof (wp_sound (xl127 tc dc false) pktp rfuel (lw_setup_rx (kind127 h quirk) sf bw cr f ms) _ c [] (time_passes m)
+                  (lw_setup_rx_keeps _ _ _ sf bw cr f ms _ _ HF)) as S.
+    destruct (run rfuel c (lw_setup_rx (kind127 h quirk) sf bw cr f ms) []) as [[c' tr] [r|]]; exact S.
+  - pose proof (wp_sound (xl127 tc dc false) unit rfuel (lw_low_power (kind127 h quirk)) _ c [] (time_passes m) (lw_low_power_keeps _ _ _ _ _ HF)) as S.
+    destruct (run rfuel c (lw_low_power (kind127 h quirk)) []) as [[c' tr] [r|]]; exact S.
+Qed.
+
 (* histories start where LoRa::new starts: a chip just powered on, the driver object freshly built *)
 Theorem C14_initial_state : forall x K KO sw, Inv x K KO (initial_fields sw) power_on.
 Proof. exact initial_inv. Qed.
